@@ -101,7 +101,7 @@ def shared_lists(a, b, deep):
 def identity_facts(rng, cls):
     """the in-place / rebind facts of the heap model (append_keeps_item_list, delitem_rebinds_item_list,
     setitem_existing_rebinds_values, popLast_keeps_item_list, extend_keeps_item_list, clear_rebinds_item_list, insert_keeps_item_list,
-    insert_existing_rebinds_values) observed on a real object -> list of complaints"""
+    insert_existing_rebinds_values, update_keeps_item_list, popall_present_rebinds_item_list, discard_absent_noop) observed on a real object -> list of complaints"""
     out = []
     m = build(rng, cls)
     m.append("k1", 1); m.append("k2", 2); m.append("k1", 3)
@@ -132,6 +132,23 @@ def identity_facts(rng, cls):
     m.insert(1, [("k1", 7), ("k4", 8)])
     if items() is not i0 or dict.__getitem__(m, "k1") is v0:
         out.append("insert(): the model edits the item list in place and stores a fresh value list for a present key")
+    # update_keeps_item_list (+ setitem_existing_rebinds_values through MutableMapping.update),
+    # popall_present_rebinds_item_list, discard_absent_noop
+    i0 = items(); v0 = dict.__getitem__(m, "k1")
+    m.update([("k1", 10), ("k5", 11)])
+    if items() is not i0 or dict.__getitem__(m, "k1") is v0:
+        out.append("update(): the model assigns pair by pair (item list kept, fresh value list for a present key)")
+    i0 = items()
+    m.popall("k4")
+    if items() is i0:
+        out.append("popall(key) edits the item list in place (the model rebinds it, as __delitem__ does)")
+    i0 = items(); before = list(i0)
+    import warnings
+    with warnings.catch_warnings():
+        warnings.simplefilter("ignore")
+        m.discard("absent-key")
+    if items() is not i0 or list(items()) != before:
+        out.append("discard() of an absent key changes the container (the model changes nothing)")
     i0 = items()
     m.clear()
     if items() is i0 or len(dict.keys(m)) != 0:
